@@ -90,39 +90,24 @@ Proof. intros H. rewrite !norm_le_iff, !tol_ok_abs. simpl. intros [H0 H1]. split
 (* =========================================================================================== *)
 (* between_comparer                                                                              *)
 (* =========================================================================================== *)
-Theorem between_iff_float lo hi n :
-  between_cmp lo hi n = CBool true <-> exists x, n = NReal x /\ lo <= x <= hi.
+Theorem between_iff lo hi n :
+  between_cmp lo hi n = CBool true <-> (snd (num_c n) == 0 /\ lo <= fst (num_c n) <= hi).
 Proof.
   destruct n as [x | a b]; simpl.
   - split.
-    + intro H. injection H as H. apply andb_true_iff in H. destruct H as [H1 H2]. qbool. exists x. auto.
-    + intros [y [E [H1 H2]]]. injection E as <-. f_equal. apply andb_true_iff.
-      split; apply Qle_bool_iff; assumption.
-  - split.
-    + destruct (Qeq_bool b 0); discriminate.
-    + intros [y [E _]]. discriminate.
-Qed.
-
-Theorem between_sound lo hi n :
-  between_cmp lo hi n = CBool true -> snd (num_c n) == 0 /\ lo <= fst (num_c n) <= hi.
-Proof.
-  intro H. apply between_iff_float in H. destruct H as [x [-> H]]. simpl. split; [reflexivity | exact H].
+    + intro H. injection H as H. apply andb_true_iff in H. destruct H as [H1 H2]. qbool. split; [reflexivity | auto].
+    + intros [_ [H1 H2]]. f_equal. apply andb_true_iff. split; apply Qle_bool_iff; assumption.
+  - destruct (Qeq_bool b 0) eqn:E.
+    + apply Qeq_bool_iff in E. split.
+      * intro H. injection H as H. apply andb_true_iff in H. destruct H as [H1 H2]. qbool. auto.
+      * intros [_ [H1 H2]]. f_equal. apply andb_true_iff. split; apply Qle_bool_iff; assumption.
+    + split; [discriminate|]. intros [H _]. apply Qeq_bool_neq in E. contradiction.
 Qed.
 
 (* a non-real input is never accepted (it raises "Input must be real.") *)
 Theorem between_nonreal lo hi a b : ~ b == 0 -> between_cmp lo hi (NCplx a b) = CRaise (XInputType MsgMustBeReal).
 Proof.
   intro H. simpl. destruct (Qeq_bool b 0) eqn:E; [apply Qeq_bool_iff in E; contradiction | reflexivity].
-Qed.
-
-(* the full statement fails on complex-typed values with zero imaginary part: the comparison raises TypeError *)
-Theorem between_iff_refuted :
-  ~ (forall lo hi n, between_cmp lo hi n = CBool true <-> (snd (num_c n) == 0 /\ lo <= fst (num_c n) <= hi)).
-Proof.
-  intro H. specialize (H 1 3 (NCplx 2 0)). destruct H as [_ H].
-  assert (E : between_cmp 1 3 (NCplx 2 0) = CBool true).
-  { apply H. simpl. split; [reflexivity | split; discriminate]. }
-  discriminate E.
 Qed.
 
 (* =========================================================================================== *)
@@ -198,90 +183,126 @@ Definition cong_accept (tl : tol) (t m x : Q) : Prop := congruence_cmp tl t m (N
 
 Lemma cong_accept_iff tl t m x : ~ m == 0 ->
   (cong_accept tl t m x <->
-   tol_ok tl = true /\ (qmod t m - qmod x m) * (qmod t m - qmod x m) <= tol2 tl (qmod t m * qmod t m)).
+   tol_ok tl = true /\
+   exists s, (s == 0 \/ s == m \/ s == - m) /\
+             (qmod t m - (qmod x m + s)) * (qmod t m - (qmod x m + s)) <= tol2 tl (qmod t m * qmod t m)).
 Proof.
   intro Hm. unfold cong_accept, congruence_cmp.
   destruct (Qeq_bool m 0) eqn:E; [apply Qeq_bool_iff in E; contradiction|].
   split.
-  - intro H. injection H as H. apply norm_le_iff in H. exact H.
-  - intro H. f_equal. apply norm_le_iff. exact H.
+  - intro H. injection H as H. apply orb_true_iff in H. destruct H as [H | H]; [apply orb_true_iff in H; destruct H as [H | H]|];
+      apply norm_le_iff in H; destruct H as [Hok H]; (split; [exact Hok|]).
+    + exists 0. split; [left; reflexivity | exact H].
+    + exists m. split; [right; left; reflexivity | exact H].
+    + exists (- m). split; [right; right; reflexivity | exact H].
+  - intros [Hok [s [Hs H]]]. f_equal.
+    assert (W : forall s', s == s' ->
+              norm_le tl (qmod t m * qmod t m) ((qmod t m - (qmod x m + s')) * (qmod t m - (qmod x m + s'))) = true).
+    { intros s' Es. apply norm_le_iff. split; [exact Hok|]. rewrite <- Es. exact H. }
+    destruct Hs as [Hs | [Hs | Hs]].
+    + rewrite (W 0 Hs). reflexivity.
+    + rewrite (W m Hs). apply orb_true_iff. left. apply orb_true_r.
+    + rewrite (W (- m) Hs). apply orb_true_r.
 Qed.
 
-(* soundness: whatever is accepted is congruent to the target within the effective tolerance *)
-Theorem congruence_sound tl t m x : ~ m == 0 -> cong_accept tl t m x ->
-  tol_ok tl = true /\
-  exists k : Z, (x - (t + inject_Z k * m)) * (x - (t + inject_Z k * m)) <= tol2 tl (qmod t m * qmod t m).
+Lemma far_multiple d m N : (- m < d < m \/ m < d < - m) -> (2 <= N \/ N <= - (2)) ->
+  d * d <= (d + N * m) * (d + N * m).
 Proof.
-  intros Hm H. apply cong_accept_iff in H; [|exact Hm]. destruct H as [Hok H]. split; [exact Hok|].
-  exists (Qfloor (x / m) - Qfloor (t / m))%Z.
-  assert (E : x - (t + inject_Z (Qfloor (x / m) - Qfloor (t / m)) * m) == - (qmod t m - qmod x m)).
-  { unfold qmod. unfold Zminus. rewrite inject_Z_plus, inject_Z_opp. ring. }
-  rewrite E. nra.
+  intros Hd HN. set (P := N * m).
+  assert (G : 0 <= P * (2 * d + P)).
+  { destruct Hd as [[H1 H2] | [H1 H2]]; destruct HN as [HN | HN]; unfold P.
+    - assert (2 * m <= N * m) by nra. apply Qmult_le_0_compat; lra.
+    - assert (N * m <= - (2 * m)) by nra.
+      setoid_replace (N * m * (2 * d + N * m)) with ((- (N * m)) * (- (2 * d + N * m))) by ring.
+      apply Qmult_le_0_compat; lra.
+    - assert (N * m <= 2 * m) by nra.
+      setoid_replace (N * m * (2 * d + N * m)) with ((- (N * m)) * (- (2 * d + N * m))) by ring.
+      apply Qmult_le_0_compat; lra.
+    - assert (- (2 * m) <= N * m) by nra. apply Qmult_le_0_compat; lra. }
+  setoid_replace ((d + P) * (d + P)) with (d * d + P * (2 * d + P)) by ring. lra.
+Qed.
+
+(* FULL STATEMENT: accepted iff the input equals the target modulo the modulus within the effective tolerance
+   (a percentage tolerance is relative to the reduced target) *)
+Theorem congruence_iff tl t m x : ~ m == 0 ->
+  (cong_accept tl t m x <->
+   tol_ok tl = true /\
+   exists k : Z, (x - (t + inject_Z k * m)) * (x - (t + inject_Z k * m)) <= tol2 tl (qmod t m * qmod t m)).
+Proof.
+  intro Hm. rewrite cong_accept_iff by exact Hm.
+  set (ft := Qfloor (t / m)). set (fx := Qfloor (x / m)).
+  assert (Et : qmod t m == t - m * inject_Z ft) by reflexivity.
+  assert (Ex : qmod x m == x - m * inject_Z fx) by reflexivity.
+  split; intros [Hok H]; (split; [exact Hok|]).
+  - destruct H as [s [Hs H]].
+    destruct Hs as [Hs | [Hs | Hs]].
+    + exists (fx - ft)%Z. unfold Zminus. rewrite inject_Z_plus, inject_Z_opp.
+      setoid_replace ((x - (t + (inject_Z fx + - inject_Z ft) * m)) * (x - (t + (inject_Z fx + - inject_Z ft) * m)))
+        with ((qmod t m - (qmod x m + s)) * (qmod t m - (qmod x m + s))) by (rewrite Et, Ex, Hs; ring). exact H.
+    + exists (fx - ft - 1)%Z. unfold Zminus. rewrite !inject_Z_plus, !inject_Z_opp. change (inject_Z 1) with 1.
+      setoid_replace ((x - (t + (inject_Z fx + - inject_Z ft + - (1)) * m)) * (x - (t + (inject_Z fx + - inject_Z ft + - (1)) * m)))
+        with ((qmod t m - (qmod x m + s)) * (qmod t m - (qmod x m + s))) by (rewrite Et, Ex, Hs; ring). exact H.
+    + exists (fx - ft + 1)%Z. unfold Zminus. rewrite !inject_Z_plus, !inject_Z_opp. change (inject_Z 1) with 1.
+      setoid_replace ((x - (t + (inject_Z fx + - inject_Z ft + 1) * m)) * (x - (t + (inject_Z fx + - inject_Z ft + 1) * m)))
+        with ((qmod t m - (qmod x m + s)) * (qmod t m - (qmod x m + s))) by (rewrite Et, Ex, Hs; ring). exact H.
+  - destruct H as [k H].
+    set (d := qmod x m - qmod t m).
+    set (n := (fx - ft - k)%Z).
+    assert (ED : x - (t + inject_Z k * m) == d + inject_Z n * m).
+    { unfold d, n. rewrite Et, Ex. unfold Zminus. rewrite !inject_Z_plus, !inject_Z_opp. ring. }
+    assert (Hd : - m < d < m \/ m < d < - m).
+    { unfold d. destruct (qmod_range t m Hm) as [[P1 R1] | [P1 R1]]; destruct (qmod_range x m Hm) as [[P2 R2] | [P2 R2]];
+        try lra. }
+    assert (Cases : (n = 0 \/ n = 1 \/ n = -1 \/ 2 <= n \/ n <= -2)%Z) by lia.
+    destruct Cases as [C | [C | [C | C]]].
+    + exists 0. split; [left; reflexivity|].
+      setoid_replace ((qmod t m - (qmod x m + 0)) * (qmod t m - (qmod x m + 0))) with ((d + inject_Z n * m) * (d + inject_Z n * m))
+        by (rewrite C; unfold d; simpl; ring).
+      rewrite <- ED. exact H.
+    + exists m. split; [right; left; reflexivity|].
+      setoid_replace ((qmod t m - (qmod x m + m)) * (qmod t m - (qmod x m + m))) with ((d + inject_Z n * m) * (d + inject_Z n * m))
+        by (rewrite C; unfold d; change (inject_Z 1) with 1; ring).
+      rewrite <- ED. exact H.
+    + exists (- m). split; [right; right; reflexivity|].
+      setoid_replace ((qmod t m - (qmod x m + - m)) * (qmod t m - (qmod x m + - m))) with ((d + inject_Z n * m) * (d + inject_Z n * m))
+        by (rewrite C; unfold d; change (inject_Z (-1)) with (- (1)); ring).
+      rewrite <- ED. exact H.
+    + exists 0. split; [left; reflexivity|].
+      assert (HN : 2 <= inject_Z n \/ inject_Z n <= - (2)).
+      { destruct C as [C | C]; [left; change 2 with (inject_Z 2) | right; change (- (2)) with (inject_Z (-2))];
+          rewrite <- Zle_Qle; exact C. }
+      pose proof (far_multiple d m (inject_Z n) Hd HN) as F.
+      setoid_replace ((qmod t m - (qmod x m + 0)) * (qmod t m - (qmod x m + 0))) with (d * d) by (unfold d; ring).
+      rewrite ED in H. lra.
+Qed.
+
+(* absolute tolerance, in the familiar form *)
+Theorem congruence_iff_abs tau t m x : ~ m == 0 -> 0 <= tau ->
+  (cong_accept (TAbs tau) t m x <-> exists k : Z, Qabs (x - (t + inject_Z k * m)) <= tau).
+Proof.
+  intros Hm Ht. rewrite congruence_iff by exact Hm. simpl tol2. split.
+  - intros [_ [k H]]. exists k. apply abs_le_of_sq; assumption.
+  - intros [k H]. split; [apply tol_ok_abs; exact Ht|]. exists k.
+    assert (B : - tau <= x - (t + inject_Z k * m) <= tau) by (revert H; apply Qabs_case; intros; lra). nra.
 Qed.
 
 (* shifting the input by whole multiples of the modulus never changes the verdict *)
-Theorem congruence_shift_invariant tl t m x k : ~ m == 0 ->
-  (cong_accept tl t m (x + inject_Z k * m) <-> cong_accept tl t m x).
+Theorem congruence_shift_invariant tl t m x j : ~ m == 0 ->
+  (cong_accept tl t m (x + inject_Z j * m) <-> cong_accept tl t m x).
 Proof.
-  intro Hm. rewrite !cong_accept_iff by exact Hm. rewrite (qmod_shift x m k Hm). reflexivity.
+  intro Hm. rewrite !congruence_iff by exact Hm. split; intros [Hok [k H]]; (split; [exact Hok|]).
+  - exists (k - j)%Z. unfold Zminus. rewrite inject_Z_plus, inject_Z_opp.
+    setoid_replace (x - (t + (inject_Z k + - inject_Z j) * m)) with (x + inject_Z j * m - (t + inject_Z k * m)) by ring. exact H.
+  - exists (k + j)%Z. rewrite inject_Z_plus.
+    setoid_replace (x + inject_Z j * m - (t + (inject_Z k + inject_Z j) * m)) with (x - (t + inject_Z k * m)) by ring. exact H.
 Qed.
 
 (* the defining transformation: target + k * modulus is accepted for every k and every tolerance *)
 Theorem congruence_exact_members tl t m k : ~ m == 0 -> tol_ok tl = true -> cong_accept tl t m (t + inject_Z k * m).
 Proof.
-  intros Hm Hok. apply congruence_shift_invariant; [exact Hm|].
-  apply cong_accept_iff; [exact Hm|]. split; [exact Hok|].
-  setoid_replace ((qmod t m - qmod t m) * (qmod t m - qmod t m)) with 0 by ring.
+  intros Hm Hok. apply congruence_iff; [exact Hm|]. split; [exact Hok|]. exists k.
+  setoid_replace ((t + inject_Z k * m - (t + inject_Z k * m)) * (t + inject_Z k * m - (t + inject_Z k * m))) with 0 by ring.
   apply tol2_nonneg. nra.
-Qed.
-
-(* exact characterisation: accepted iff congruent within tolerance by a perturbation that does not
-   cross the end of the residue interval *)
-Theorem congruence_iff_no_wrap tl t m x : ~ m == 0 ->
-  (cong_accept tl t m x <->
-   tol_ok tl = true /\
-   exists (k : Z) (e : Q), x == t + inject_Z k * m + e /\ e * e <= tol2 tl (qmod t m * qmod t m)
-                           /\ in_residues m (qmod t m + e)).
-Proof.
-  intro Hm. rewrite cong_accept_iff by exact Hm. split.
-  - intros [Hok H]. split; [exact Hok|].
-    exists (Qfloor (x / m) - Qfloor (t / m))%Z, (qmod x m - qmod t m). repeat split.
-    + unfold qmod. unfold Zminus. rewrite inject_Z_plus, inject_Z_opp. ring.
-    + nra.
-    + apply in_residues_comp with (r := qmod x m); [ring | apply qmod_range; exact Hm].
-  - intros [Hok [k [e [Ex [He Hr]]]]]. split; [exact Hok|].
-    assert (Q1 : qmod x m == qmod t m + e).
-    { apply qmod_unique with (z := (Qfloor (t / m) + k)%Z); [exact Hm | | exact Hr].
-      rewrite Ex, inject_Z_plus. unfold qmod. ring. }
-    rewrite Q1. nra.
-Qed.
-
-(* completeness away from the wrap (absolute tolerance, positive modulus) *)
-Theorem congruence_complete_away_from_wrap tau t m x k : 0 < m -> 0 <= tau ->
-  Qabs (x - (t + inject_Z k * m)) <= tau -> tau <= qmod t m -> qmod t m + tau < m ->
-  cong_accept (TAbs tau) t m x.
-Proof.
-  intros Hm Ht Hx H1 H2. assert (Hm' : ~ m == 0) by lra.
-  apply congruence_iff_no_wrap; [exact Hm'|]. split; [apply tol_ok_abs; exact Ht|].
-  exists k, (x - (t + inject_Z k * m)).
-  assert (B : - tau <= x - (t + inject_Z k * m) <= tau).
-  { revert Hx. apply Qabs_case; intros; lra. }
-  repeat split.
-  - ring.
-  - simpl. nra.
-  - left. split; [exact Hm|]. lra.
-Qed.
-
-(* the full "iff" fails across the wrap: target 0, modulus 1, tolerance 1/10, input -1/100 *)
-Theorem congruence_iff_refuted :
-  ~ (forall tau t m x, ~ m == 0 -> 0 <= tau ->
-       (cong_accept (TAbs tau) t m x <-> exists k : Z, Qabs (x - (t + inject_Z k * m)) <= tau)).
-Proof.
-  intro H. specialize (H (1 # 10) 0 1 (- (1 # 100))).
-  destruct H as [_ H]; [discriminate | discriminate |].
-  assert (A : cong_accept (TAbs (1 # 10)) 0 1 (- (1 # 100))).
-  { apply H. exists 0%Z. vm_compute. discriminate. }
-  vm_compute in A. discriminate A.
 Qed.
 
 (* =========================================================================================== *)
@@ -428,87 +449,66 @@ Proof.
 Qed.
 
 (* =========================================================================================== *)
-(* vector_span_comparer  (lstsq = its documented specification)                                   *)
+(* vector_span_comparer  (coeffs = what lstsq returned)                                           *)
 (* =========================================================================================== *)
-Definition span_accept (tl : tol) (ws : list cvec) (v : cvec) : Prop :=
-  span_core tl (lstsq_spec ws v) v = CBool true.
+Definition span_accept (tl : tol) (ws : list cvec) (coeffs : list C) (v : cvec) : Prop :=
+  span_core tl ws coeffs v = CBool true.
+
+(* lstsq's contract: the returned coefficients minimise |v - sum c_j w_j| *)
+Definition minimiser (ws : list cvec) (coeffs : list C) (v : cvec) : Prop :=
+  dist2 v (lincomb coeffs ws) == cres2 ws v.
 
 Lemma lincomb_cons c cs w ws : lincomb (c :: cs) (w :: ws) = vadd (cvscale c w) (lincomb cs ws).
 Proof. reflexivity. Qed.
 
-Lemma lstsq_spec_full ws v : crank ws = length ws -> (length ws < length v)%nat -> lstsq_spec ws v = Some (cres2 ws v).
+Lemma span_accept_iff tl ws coeffs v :
+  span_accept tl ws coeffs v <->
+  norm_le tl 0 (norm2 v) = false /\ tol_ok tl = true /\ dist2 v (lincomb coeffs ws) <= tol2 tl (norm2 v).
 Proof.
-  intros Hr Hl. unfold lstsq_spec. rewrite Hr.
-  assert (E1 : (length ws <? length ws)%nat = false) by (apply Nat.ltb_ge; lia).
-  assert (E2 : (length v <=? length ws)%nat = false) by (apply Nat.leb_gt; lia).
-  rewrite E1, E2. reflexivity.
+  unfold span_accept, span_core. destruct (norm_le tl 0 (norm2 v)).
+  - split; [discriminate | intros [H _]; discriminate].
+  - unfold nearly_zero. split.
+    + intro H. injection H as H. apply norm_le_iff in H. split; [reflexivity | exact H].
+    + intros [_ H]. f_equal. apply norm_le_iff. exact H.
 Qed.
 
-(* full-strength statement, for independent spanning vectors (fewer than the dimension) *)
-Theorem span_iff tl ws v : crank ws = length ws -> (length ws < length v)%nat ->
-  (span_accept tl ws v <->
+(* soundness needs nothing from lstsq: whatever is accepted is within tolerance of an explicit combination *)
+Theorem span_sound tl ws coeffs v : span_accept tl ws coeffs v ->
+  norm_le tl 0 (norm2 v) = false /\ tol_ok tl = true /\
+  exists cs : list C, dist2 v (lincomb cs ws) <= tol2 tl (norm2 v).
+Proof.
+  intro H. apply span_accept_iff in H. destruct H as [H1 [H2 H3]]. repeat split; auto. exists coeffs. exact H3.
+Qed.
+
+(* FULL STATEMENT, every family of spanning vectors (dependent or not, any number) *)
+Theorem span_iff tl ws coeffs v : minimiser ws coeffs v ->
+  (span_accept tl ws coeffs v <->
    norm_le tl 0 (norm2 v) = false /\ tol_ok tl = true /\
    exists cs : list C, dist2 v (lincomb cs ws) <= tol2 tl (norm2 v)).
 Proof.
-  intros Hr Hl. unfold span_accept, span_core. rewrite (lstsq_spec_full ws v Hr Hl).
-  destruct (norm_le tl 0 (norm2 v)).
-  - split; [discriminate | intros [H _]; discriminate].
-  - unfold nearly_zero. split.
-    + intro H. injection H as H. apply norm_le_iff in H. destruct H as [Hok H].
-      split; [reflexivity|]. split; [exact Hok|].
-      destruct (cres2_attained_lincomb ws v) as [cs Hcs]. exists cs. rewrite Hcs. exact H.
-    + intros [_ [Hok [cs Hcs]]]. f_equal. apply norm_le_iff. split; [exact Hok|].
-      pose proof (cres2_min_lincomb ws v cs). lra.
+  intro Hmin. split; [apply span_sound|].
+  intros [H1 [H2 [cs Hcs]]]. apply span_accept_iff. repeat split; auto.
+  unfold minimiser in Hmin. rewrite Hmin. pose proof (cres2_min_lincomb ws v cs). lra.
 Qed.
 
 (* members generated by the defining transformation are accepted by every configuration *)
-Theorem span_members tl ws v cs : tol_ok tl = true -> norm_le tl 0 (norm2 v) = false ->
-  veq v (lincomb cs ws) -> span_accept tl ws v.
+Theorem span_members tl ws coeffs v cs : minimiser ws coeffs v -> tol_ok tl = true -> norm_le tl 0 (norm2 v) = false ->
+  veq v (lincomb cs ws) -> span_accept tl ws coeffs v.
 Proof.
-  intros Hok Hz Hv. unfold span_accept, span_core. rewrite Hz.
-  destruct (lstsq_spec ws v) as [r2|] eqn:E; [|reflexivity].
-  f_equal. unfold nearly_zero. apply norm_le_iff. split; [exact Hok|].
-  unfold lstsq_spec in E. destruct (_ || _); [discriminate|]. injection E as <-.
-  pose proof (cres2_min_lincomb ws v cs) as H. rewrite (veq_dist2_zero _ _ Hv) in H.
-  pose proof (tol2_nonneg tl (norm2 v) (norm2_nonneg v)). lra.
+  intros Hmin Hok Hz Hv. apply span_iff; [exact Hmin|]. repeat split; auto. exists cs.
+  rewrite (veq_dist2_zero _ _ Hv). apply tol2_nonneg. apply norm2_nonneg.
 Qed.
 
-(* dependent spanning vectors: lstsq reports no residual and everything nonzero is accepted *)
-Theorem span_rank_deficient_accepts_all tl ws v : (crank ws < length ws)%nat ->
-  norm_le tl 0 (norm2 v) = false -> span_accept tl ws v.
-Proof.
-  intros Hr Hz. unfold span_accept, span_core, lstsq_spec. rewrite Hz.
-  assert (E : (crank ws <? length ws)%nat = true) by (apply Nat.ltb_lt; exact Hr).
-  rewrite E. reflexivity.
-Qed.
-
-(* ... so the full statement fails: [1,1,0],[2,2,0] accept [0,0,1], whose distance to the span is 1 *)
-Definition sp_w1 : cvec := [(1, 0); (1, 0); (0, 0)].
-Definition sp_w2 : cvec := [(2, 0); (2, 0); (0, 0)].
-Definition sp_v : cvec := [(0, 0); (0, 0); (1, 0)].
-
-Theorem span_iff_refuted :
-  ~ (forall tl ws v, (length ws < length v)%nat ->
-       (span_accept tl ws v <->
-        norm_le tl 0 (norm2 v) = false /\ tol_ok tl = true /\
-        exists cs : list C, dist2 v (lincomb cs ws) <= tol2 tl (norm2 v))).
-Proof.
-  intro H. specialize (H (TPct (1 # 10000)) [sp_w1; sp_w2] sp_v).
-  destruct H as [H _]; [simpl; lia|].
-  assert (A : span_accept (TPct (1 # 10000)) [sp_w1; sp_w2] sp_v) by (vm_compute; reflexivity).
-  destruct (H A) as [_ [_ [cs Hcs]]].
-  pose proof (cres2_min_lincomb [sp_w1; sp_w2] sp_v cs) as L.
-  assert (E : cres2 [sp_w1; sp_w2] sp_v == 1) by (vm_compute; reflexivity).
-  assert (T : tol2 (TPct (1 # 10000)) (norm2 sp_v) == 1 # 100000000) by (vm_compute; reflexivity).
-  rewrite E in L. rewrite T in Hcs. assert (X : 1 <= 1 # 100000000) by lra. vm_compute in X. apply X. reflexivity.
-Qed.
+(* a minimiser always exists, so the contract is satisfiable for every input *)
+Theorem minimiser_exists ws v : exists coeffs, minimiser ws coeffs v.
+Proof. exact (cres2_attained_lincomb ws v). Qed.
 
 (* =========================================================================================== *)
 (* vector_phase_comparer                                                                         *)
 (* =========================================================================================== *)
 (* the decision once the parameter is a single vector t and the input has its shape *)
-Definition phase_decision (tl : tol) (t v : cvec) : bool :=
-  match span_core tl (lstsq_spec [t] v) v with
+Definition phase_decision (tl : tol) (t : cvec) (coeffs : list C) (v : cvec) : bool :=
+  match span_core tl [t] coeffs v with
   | CBool false => false
   | _ => tol_ok tl && mag_close (norm2 t) (norm2 v) (tol2 tl (norm2 t))
   end.
@@ -516,25 +516,29 @@ Definition phase_decision (tl : tol) (t v : cvec) : bool :=
 Lemma shape_eqb_refl s : shape_eqb s s = true.
 Proof. induction s as [|x s IH]; [reflexivity|]. simpl. rewrite Z.eqb_refl. exact IH. Qed.
 
-Lemma phase_cmp_decision d tl t v : length v = length t ->
-  vector_phase_cmp (Some d) tl lstsq_spec [VVec t] (VVec v) = CBool (phase_decision tl t v).
+Lemma phase_cmp_decision d tl lstsq (t v : cvec) : length v = length t ->
+  vector_phase_cmp (Some d) tl lstsq [VVec t] (VVec v) = CBool (phase_decision tl t (lstsq [t] v) v).
 Proof.
   intro Hl. unfold vector_phase_cmp, vector_span_cmp, same_length_vectors, validate_shape. simpl.
   rewrite !Z.eqb_refl. simpl. rewrite Hl, Z.eqb_refl. simpl.
   unfold phase_decision.
-  match goal with |- context [span_core ?a ?b ?c] => destruct (span_core a b c) as [[|]|g mk|e] eqn:E end; try reflexivity.
-  unfold span_core in E. destruct (norm_le tl 0 (norm2 v)); [discriminate|].
-  match type of E with context [lstsq_spec ?a ?b] => destruct (lstsq_spec a b); discriminate end.
+  match goal with |- context [span_core ?a ?b ?c ?e] => destruct (span_core a b c e) as [[|]|g mk|e0] eqn:E end; try reflexivity.
+  unfold span_core in E. destruct (norm_le tl 0 (norm2 v)); discriminate.
 Qed.
 
-Lemma lincomb1 u t : veq (lincomb [u] [t]) (cvscale u t).
+Lemma lincomb1 u (t : cvec) : veq (lincomb [u] [t]) (cvscale u t).
 Proof. intro c. simpl lincomb. rewrite rdot_vadd_l. simpl (rdot [] c). ring. Qed.
 
-(* members: the target times any unit-modulus number is accepted, whatever the (valid) tolerance *)
-Theorem phase_members tl t v u : tol_ok tl = true -> cabs2 u == 1 -> veq v (cvscale u t) ->
-  phase_decision tl t v = true.
+Lemma lincomb_single cs (t : cvec) : veq (lincomb cs [t]) (cvscale (hd (0, 0) cs) t).
 Proof.
-  intros Hok Hu Hv. unfold phase_decision.
+  intro c. destruct cs as [|a [|b cs]]; cbn [lincomb hd]; rewrite ?rdot_vadd_l, ?rdot_cvscale_l; cbn [fst snd rdot]; ring.
+Qed.
+
+(* members: the target times any unit-modulus number is accepted, whatever the (valid) tolerance *)
+Theorem phase_members tl t coeffs v u : minimiser [t] coeffs v -> tol_ok tl = true -> cabs2 u == 1 -> veq v (cvscale u t) ->
+  phase_decision tl t coeffs v = true.
+Proof.
+  intros Hmin Hok Hu Hv. unfold phase_decision.
   assert (M : tol_ok tl && mag_close (norm2 t) (norm2 v) (tol2 tl (norm2 t)) = true).
   { rewrite Hok. simpl.
     assert (E : norm2 v == norm2 t).
@@ -542,10 +546,9 @@ Proof.
     rewrite (mag_close_comp _ (norm2 t) _ (norm2 t) _ (tol2 tl (norm2 t)) (Qeq_refl _) E (Qeq_refl _)).
     apply mag_close_refl; [apply norm2_nonneg | apply tol2_nonneg; apply norm2_nonneg]. }
   unfold span_core. destruct (norm_le tl 0 (norm2 v)); [exact M|].
-  destruct (lstsq_spec [t] v) as [r2|] eqn:E; [|exact M].
-  assert (A : nearly_zero tl r2 (norm2 v) = true).
+  assert (A : nearly_zero tl (dist2 v (lincomb coeffs [t])) (norm2 v) = true).
   { unfold nearly_zero. apply norm_le_iff. split; [exact Hok|].
-    unfold lstsq_spec in E. destruct (_ || _); [discriminate|]. injection E as <-.
+    unfold minimiser in Hmin. rewrite Hmin.
     pose proof (cres2_min_lincomb [t] v [u]) as H.
     assert (Z : dist2 v (lincomb [u] [t]) == 0).
     { apply veq_dist2_zero. rewrite lincomb1. exact Hv. }
@@ -553,42 +556,27 @@ Proof.
   rewrite A. exact M.
 Qed.
 
-Lemma lstsq_spec_single t v : 0 < norm2 t -> (1 < length v)%nat -> lstsq_spec [t] v = Some (cres2 [t] v).
-Proof.
-  intros Ht Hl. apply lstsq_spec_full; [|simpl; lia].
-  unfold crank. simpl. destruct (vzero t) eqn:E; [|reflexivity].
-  pose proof (vzero_rdot t t E) as Z. unfold norm2 in Ht. lra.
-Qed.
-
-(* soundness: an accepted input is within tolerance of a complex multiple of the target (or "zero within
-   tolerance") and has the target's magnitude within tolerance *)
-Theorem phase_sound tl t v : 0 < norm2 t -> (1 < length v)%nat -> phase_decision tl t v = true ->
+(* soundness (nothing needed from lstsq): an accepted input is within tolerance of a complex multiple of the
+   target (or "zero within tolerance") and has the target's magnitude within tolerance *)
+Theorem phase_sound tl t coeffs v : phase_decision tl t coeffs v = true ->
   tol_ok tl = true /\ mag_close (norm2 t) (norm2 v) (tol2 tl (norm2 t)) = true /\
   (norm_le tl 0 (norm2 v) = true \/ exists c : C, dist2 v (cvscale c t) <= tol2 tl (norm2 v)).
 Proof.
-  intros Ht Hl H. unfold phase_decision in H. rewrite (lstsq_spec_single t v Ht Hl) in H.
-  unfold span_core in H. destruct (norm_le tl 0 (norm2 v)) eqn:Z.
+  intro H. unfold phase_decision, span_core in H. destruct (norm_le tl 0 (norm2 v)) eqn:Z.
   - apply andb_true_iff in H. destruct H as [H1 H2]. repeat split; auto.
-  - destruct (nearly_zero tl (cres2 [t] v) (norm2 v)) eqn:N; [|discriminate].
+  - destruct (nearly_zero tl (dist2 v (lincomb coeffs [t])) (norm2 v)) eqn:N; [|discriminate].
     apply andb_true_iff in H. destruct H as [H1 H2]. repeat split; auto. right.
     unfold nearly_zero in N. apply norm_le_iff in N. destruct N as [_ N].
-    destruct (cres2_attained_lincomb [t] v) as [cs Hcs].
-    destruct cs as [|c cs].
-    + exists (0, 0). simpl lincomb in Hcs.
-      assert (E : dist2 v (cvscale (0, 0) t) == dist2 v []).
-      { apply veq_dist2; [reflexivity|]. intro x. rewrite rdot_cvscale_l. simpl. ring. }
-      rewrite E, Hcs. exact N.
-    + exists c. assert (E : dist2 v (cvscale c t) == dist2 v (lincomb (c :: cs) [t])).
-      { apply veq_dist2; [reflexivity|]. intro x. destruct cs; simpl lincomb; rewrite rdot_vadd_l; simpl (rdot [] x); ring. }
-      rewrite E, Hcs. exact N.
+    exists (hd (0, 0) coeffs).
+    rewrite <- (veq_dist2 v v _ _ (veq_refl v) (lincomb_single coeffs t)). exact N.
 Qed.
 
 (* at zero tolerance the accepted class is exactly { u * t : |u| = 1 } *)
-Theorem phase_iff_exact t v : 0 < norm2 t -> (1 < length v)%nat ->
-  (phase_decision (TAbs 0) t v = true <-> exists u : C, cabs2 u == 1 /\ veq v (cvscale u t)).
+Theorem phase_iff_exact t coeffs v : minimiser [t] coeffs v -> 0 < norm2 t ->
+  (phase_decision (TAbs 0) t coeffs v = true <-> exists u : C, cabs2 u == 1 /\ veq v (cvscale u t)).
 Proof.
-  intros Ht Hl. split.
-  - intro H. destruct (phase_sound (TAbs 0) t v Ht Hl H) as [_ [M S]].
+  intros Hmin Ht. split.
+  - intro H. destruct (phase_sound (TAbs 0) t coeffs v H) as [_ [M S]].
     unfold mag_close in M. simpl tol2 in M. apply orb_true_iff in M.
     pose proof (norm2_nonneg v) as Hv.
     assert (E : norm2 v == norm2 t).
@@ -601,5 +589,5 @@ Proof.
       pose proof (veq_norm2 _ _ V) as N. rewrite norm2_cvscale in N.
       assert (X : cabs2 c * norm2 t == norm2 t) by lra.
       apply Qmult_inj_r with (z := norm2 t); [lra|]. rewrite X. ring.
-  - intros [u [Hu Hv]]. apply phase_members with (u := u); [reflexivity | exact Hu | exact Hv].
+  - intros [u [Hu Hv]]. apply phase_members with (u := u); [exact Hmin | reflexivity | exact Hu | exact Hv].
 Qed.
